@@ -730,6 +730,14 @@ def observe(ev):
         ev.update(raised=st != "ok", res=list(got) if st == "ok" else [])
     elif op == "Rank":
         ev["res"] = entry(Perm, "perm2ind")(Perm(ev["p"])) if form == "alias" else Perm(ev["p"]).rank()
+    elif op == "BigRank":
+        got = entry(Perm, "perm2ind")(Perm(ev["p"])) if form == "alias" else Perm(ev["p"]).rank()
+        ev["res"] = numeral(got)
+    elif op in ("BigUnrank", "BigUnrankN"):
+        r = ev.pop("value")
+        args = (r,) if op == "BigUnrank" else (r, ev["n"])
+        st, got = util.call(entry(Perm, "ind2perm") if form == "alias" else Perm.unrank, *args)
+        ev.update(r=numeral(r), raised=st != "ok", res=list(got) if st == "ok" else [])
     elif op == "Less":
         ev["lt"] = bool(Perm(ev["a"]) < Perm(ev["b"]))
     elif op == "Std":
@@ -780,6 +788,18 @@ def observe(ev):
         else:
             ev["items"] = [list(x) for x in it]
     return ev
+
+
+def numeral(x):
+    """A natural number as its base-10000 digits, least significant first (LexRank: LBig...); a result that is not a
+    natural number (a float, a negative) is sent as a one-digit numeral no rank can equal."""
+    if isinstance(x, bool) or not isinstance(x, int) or x < 0:
+        return [-1]
+    out = []
+    while x:
+        out.append(x % 10000)
+        x //= 10000
+    return out
 
 
 def expand_slice(ev):
@@ -958,6 +978,23 @@ def long_rank_events(ctx, rnd, quick):
                             "form": "kw", "src": "up_to_length(9) roll-over 8 -> 9"})
     forgiving(ctx, events, {"op": "GenSlice", "gen": "first", "arg": shorter(9) + 3, "start": shorter(9) - 2, "stop": None,
                             "form": "kw", "src": "first(#shorter(9) + 3) tail"})
+    return events
+
+
+def big_rank_events(ctx, rnd, quick):
+    """Lengths 13-40, where ranks exceed 32 and then 64 bits and the mantissa of a float: rank, unrank with and without
+    a length, the two ends of every length; judged through the base-10000 numerals of LexRank (LBigOverallRank)."""
+    events = []
+    lens = [13, 16, 18, 19, 20, 21, 22, 23, 24, 25, 26, 28, 30, 33, 36, 40]
+    for n in (lens if quick else lens * 6):
+        for p in (util.rand_perm(rnd, n), tuple(range(n)), tuple(range(n - 1, -1, -1)),
+                  tuple(range(n - 2, -1, -1)) + (n - 1,), (n - 1,) + tuple(range(n - 1))):
+            forgiving(ctx, events, {"op": "BigRank", "p": list(p), "form": rnd.choice(["", "", "alias"])})
+        f = math.factorial(n)
+        for r in (0, f - 1, rnd.randrange(f), f // 2 + 1):
+            forgiving(ctx, events, {"op": "BigUnrankN", "value": r, "n": n, "form": rnd.choice(["", "alias"])})
+        for r in (shorter(n), shorter(n + 1) - 1, rnd.randrange(shorter(n), shorter(n + 1))):
+            forgiving(ctx, events, {"op": "BigUnrank", "value": r})
     return events
 
 
@@ -1175,7 +1212,7 @@ def run(ctx):
     cold = cold_start_events(ctx, util.rng(ctx, 909), quick)      # before this process has called anything
     events = record_events(ctx, rnd, quick)
     rnd_h = util.rng(ctx, 99)
-    hard = long_rank_events(ctx, rnd_h, quick) + form_events(ctx, rnd_h, quick) + mesh_boundary_events(ctx, rnd_h, quick) \
+    hard = long_rank_events(ctx, rnd_h, quick) + big_rank_events(ctx, util.rng(ctx, 913), quick) + form_events(ctx, rnd_h, quick) + mesh_boundary_events(ctx, rnd_h, quick) \
         + lazy_events(ctx, rnd_h, quick)
     ctx.note("hardening_events", {"cold_start": len(cold), "in_process": len(hard)})
     events = events + hard + cold
